@@ -92,6 +92,7 @@ type sBody struct {
 	pendingTrailer http.Header
 	trailer        http.Header
 	tr             *sTransport
+	rstOnCtx       string // see ctxWakeErr
 }
 
 func newSBody(ctx context.Context) *sBody { return &sBody{wake: make(chan struct{}, 1), ctx: ctx} }
@@ -120,6 +121,19 @@ func (b *sBody) finish(err error) {
 	case b.wake <- struct{}{}:
 	default:
 	}
+}
+
+// ctxWakeErr is what a body read woken by the end of the context reports: the context's
+// error, or — when rstOnCtx is set — the reset the peer sent at about the same moment (a server
+// enforcing the announced timeout resets the stream when the deadline passes)
+func (b *sBody) ctxWakeErr() error {
+	b.mu.Lock()
+	code := b.rstOnCtx
+	b.mu.Unlock()
+	if code != "" {
+		return h.ErrRST{Code: code}
+	}
+	return b.ctx.Err()
 }
 
 func (b *sBody) Read(p []byte) (int, error) {
@@ -163,10 +177,10 @@ func (b *sBody) Read(p []byte) (int, error) {
 				default:
 				}
 				if b.tr.reqEOF.Load() && b.ctx.Err() != nil {
-					return 0, b.ctx.Err()
+					return 0, b.ctxWakeErr()
 				}
 			} else if b.ctx.Err() != nil {
-				return 0, b.ctx.Err()
+				return 0, b.ctxWakeErr()
 			}
 		}
 	}
@@ -351,6 +365,7 @@ func waitNoLibraryGoroutines(d time.Duration) []string {
 // ---------------------------------------------------------------------------
 
 type dxCall struct {
+	rng    *h.Rng // choices made while the call runs
 	r      *h.Run
 	mode   string // "C14" | "C15": which property's oracles apply
 	fam    string
@@ -388,7 +403,7 @@ func newDxCall(r *h.Run, mode, fam string, cfg envCfg, status int, protoMajor in
 }
 
 func newDxCallKind(r *h.Run, mode, fam, kind string, cfg envCfg, status int, protoMajor int) *dxCall {
-	c := &dxCall{r: r, mode: mode, fam: fam, stype: kind, cfg: cfg, ctx: newCtlCtx(), yc: newYieldCtl(), hold: make(chan struct{}), doExitArrived: make(chan struct{}, 4)}
+	c := &dxCall{r: r, rng: r.Rng.Fork(fmt.Sprint("dxcall", mode, fam, kind, cfg, status, protoMajor, r.Sum.Evaluations)), mode: mode, fam: fam, stype: kind, cfg: cfg, ctx: newCtlCtx(), yc: newYieldCtl(), hold: make(chan struct{}), doExitArrived: make(chan struct{}, 4)}
 	c.body = newSBody(c.ctx)
 	hdr := http.Header{}
 	hdr.Set("Content-Type", cfg.contentType(false))
@@ -706,14 +721,28 @@ func (c *dxCall) recvCancel(k ctxKind) {
 		return
 	}
 	receive := func() error { var m h.Raw; return c.st.Receive(&m) }
+	// in a third of the cases the peer resets the stream at about the moment the context ends
+	// (CANCEL is what a server enforcing the announced timeout sends): the transport reports
+	// the reset, and the context has ended — the context's code is the call's
+	rst := ""
+	if c.body != nil && c.rng.Intn(3) == 0 {
+		rst = []string{"CANCEL", "INTERNAL_ERROR", "REFUSED_STREAM", "NO_ERROR"}[c.rng.Intn(4)]
+		c.body.mu.Lock()
+		c.body.rstOnCtx = rst
+		c.body.mu.Unlock()
+	}
 	blocked, ch := blockedFor(15*time.Millisecond, receive)
 	if blocked {
 		c.endCtx(k)
 	}
+	what := "Receive (blocked in the body read when the context ends)"
+	if rst != "" {
+		what = "Receive (blocked in the body read when the context ends; the transport reports RST_STREAM " + rst + " received from the peer)"
+	}
 	select {
 	case err := <-ch:
 		c.noteRecv(dxItem{kind: "msg"}, err)
-		c.recordF(fmt.Sprintf("ARecvCancel %s", k.coq()), clsOf(err), "Receive (blocked in the body read when the context ends)", blocked)
+		c.recordF(fmt.Sprintf("ARecvCancel %s", k.coq()), clsOf(err), what, blocked)
 	case <-time.After(dxWatchdog):
 		c.timedOut = true
 		c.r.Fail(h.Failure{Key: "hang/Receive", Family: c.fam, What: "a Receive blocked in the body read did not return after the context ended",
